@@ -11,12 +11,13 @@ fn vf_get_plan() {
     // a: default command directory; a/b: custom command directory + definitions; c: nothing on disk
     for f in ["a/monorail/cmd/build.sh", "a/monorail/cmd/lint.fix.sh", "a/monorail/cmd/test.py", "a/monorail/cmd/testing.py", "a/b/scripts/lint.rb", "a/b/scripts/build.sh", "tools/b.sh", "shared/cmds/build.sh", "shared/cmds/lint.py", "tools/e-build.sh", "d/README", "e/README"] { vf_touch(&wp.join(f)); }
     vf_touch(&wp.join("c/README"));
+    // the targets are deliberately NOT declared in lexicographic order: a target's definitions are its own, wherever it is declared
     let cfg: core::Config = serde_json::from_str(r#"{"targets":[
-        {"path":"a"},
-        {"path":"a/b","commands":{"path":"a/b/scripts","definitions":{"build":{"path":"tools/b.sh"},"lint":{"path":""}}}},
+        {"path":"e","commands":{"path":"shared/cmds","definitions":{"build":{"path":"tools/e-build.sh"}}}},
         {"path":"c","commands":{"definitions":{"test":{"path":"c/run-tests"}}}},
+        {"path":"a/b","commands":{"path":"a/b/scripts","definitions":{"build":{"path":"tools/b.sh"},"lint":{"path":""}}}},
         {"path":"d","commands":{"path":"shared/cmds"}},
-        {"path":"e","commands":{"path":"shared/cmds","definitions":{"build":{"path":"tools/e-build.sh"}}}}]}"#).unwrap();
+        {"path":"a"}]}"#).unwrap();
     let index = core::Index::new(&cfg, &cfg.get_target_path_set(), wp).unwrap();
     let mut argmap = ArgMap::new();
     let mut m: HashMap<String, HashMap<String, Vec<String>>> = HashMap::new();
@@ -53,7 +54,7 @@ fn vf_get_plan() {
                         _ => None,
                     };
                     let exp_args: Option<Vec<String>> = match (t.path.as_str(), cmd) { ("a", "build") => Some(vec!["--release".into(), "-v".into()]), ("a/b", "lint") => Some(vec!["--fix".into()]), ("c", "build") => Some(vec![]), _ => None };
-                    if t.command_path != exp_path { bad += 1; println!("VF-FAIL {} :: target {} command {}: executable {:?}, documented resolution gives {:?} (C11)", what, t.path, cmd, t.command_path, exp_path); }
+                    if t.command_path != exp_path { bad += 1; println!("VF-FAIL {} :: target {} command {}: executable {:?}, documented resolution gives {:?} - the target's own definition for the command when it has one (whether or not that file exists: a missing file is `not_executable`, not `undefined`), else the file of that stem in its command directory (C11) (C05) (C06) (C16)", what, t.path, cmd, t.command_path, exp_path); }
                     if t.command_work_path != wp.join(&t.path) { bad += 1; println!("VF-FAIL {} :: target {} command {}: working directory {:?}, must be the target's own directory (C11)", what, t.path, cmd, t.command_work_path); }
                     if t.command_args != exp_args { bad += 1; println!("VF-FAIL {} :: target {} command {}: arguments {:?}, the argmap holds {:?} (C11)", what, t.path, cmd, t.command_args, exp_args); }
                 }
